@@ -93,6 +93,8 @@ def gen_case(rng, cid, ops=OPS, nmax=5, maxelems=120, ev="Stencil"):
         case = {"id": cid, "ev": ev, "op": rng.choice(ops),
                 "grid": {"axes": axes, "extra": extra, "ctor": ctor}, "args": args}
         if rng.random() < 0.2:
+            args["npnum"] = rng.choice(["f64", "f32", "i64", "float"])
+        if rng.random() < 0.2:
             # earlier calls on the same Grid with other per-call rules: the rule in force for a call is that call's
             # argument or the Grid's setting, never what an earlier call was given
             case["before"] = [{"boundary": gen.rand_tagged(rng, axnames, gen.RULES, partial=True),
